@@ -266,11 +266,14 @@ def export_query(assertions, tactic, path):
         f.write(txt)
 
 
-def run_external(path, timeout_s):
+Z3OLD = "/usr/bin/z3"        # z3 4.8.12 (Debian): second opinion in the thorough tier
+
+
+def run_external(path, timeout_s, binary=None):
     """one z3 process on an exported query; any error / unknown / timeout is 'unknown'"""
     t0 = time.time()
     try:
-        p = subprocess.run([Z3BIN, f"-T:{int(max(1, timeout_s))}", path], capture_output=True, text=True, timeout=timeout_s + 30)
+        p = subprocess.run([binary or Z3BIN, f"-T:{int(max(1, timeout_s))}", path], capture_output=True, text=True, timeout=timeout_s + 30)
         out = p.stdout.strip().splitlines()
     except subprocess.TimeoutExpired:
         return "unknown", time.time() - t0, "timeout"
